@@ -136,7 +136,9 @@ def impl_canon(x):
         return sorted(impl_canon(y) for y in x)
     if isinstance(x, dict):
         return {str(k): impl_canon(v) for k, v in x.items()}
-    return x
+    if isinstance(x, (bool, int, float, str)):
+        return x
+    return str(x)   # enum members, dimension types, other objects: compare by their printed form
 
 
 def num_close(a, b, rel=REL_TOL, abs_=ABS_TOL):
